@@ -175,8 +175,47 @@ def h_other_content(ctx, n):
     ctx.holds("decoded TLV gives the same answer", e2 is None and sym_and(sym_implies(v, v2), sym_implies(v2, v)), exc_name(e2))
 
 
+def h_limit(ctx, kind, total):
+    """names sized so that the TLV value has exactly `total` octets: everything up to 255 is a legal message, beyond is refused"""
+    if kind == "putreq":
+        n1 = (total - 9) // 2
+        n2 = total - 9 - n1
+        did = ctx.int("dest_id", 0, 255)
+        s, d = lv_val(ctx, "src", n1), lv_val(ctx, "dst", n2)
+        mk = lambda: ProxyPutRequest(ProxyPutRequestParams(UnsignedByteField(did, 1), CfdpLv(s), CfdpLv(d)))  # noqa: E731
+        mtype, fields = 0x00, ref_lv(be(did, 1)) + ref_lv(items_of(s)) + ref_lv(items_of(d))
+    else:
+        resp = kind == "listing-resp"
+        n1 = (total - 7 - (1 if resp else 0)) // 2
+        n2 = total - 7 - (1 if resp else 0) - n1
+        p, f = lv_val(ctx, "path", n1), lv_val(ctx, "file", n2)
+        ok = ctx.flag("success")
+        mk = (lambda: DirectoryListingResponse(ok != 0, DirectoryParams(CfdpLv(p), CfdpLv(f)))) if resp else \
+            (lambda: DirectoryListingRequest(DirectoryParams(CfdpLv(p), CfdpLv(f))))
+        mtype, fields = (0x11, [ok << 7]) if resp else (0x10, [])
+        fields = fields + ref_lv(items_of(p)) + ref_lv(items_of(f))
+    assert len(CFDP + [mtype] + fields) == total
+    e, raw = call(lambda: mk().pack())
+    if total > 255:
+        ctx.holds("a message that does not fit a TLV value of 255 octets is refused with ValueError", isinstance(e, ValueError),
+                  exc_name(e) if e is not None else "packed %d octets" % len(raw))
+        return
+    ctx.holds("a message whose TLV value has up to 255 octets is built and packed", e is None, exc_name(e))
+    if e is not None:
+        return
+    ref = ctx.bytes_of(ref_tlv(2, CFDP + [mtype] + fields))
+    ctx.holds("packs to a message-to-user TLV with 'cfdp', type octet and the fields", raw == ref)
+    e, u = call(MessageToUserTlv.unpack, ref)
+    ctx.holds("decoded, recognised and converted", e is None and u.is_reserved_cfdp_message() == True  # noqa: E712
+              and call(lambda: u.to_reserved_msg_tlv().pack() == ref)[1], exc_name(e))
+
+
 def cases(tier):
     cs = []
+    for kind in ("putreq", "listing-req", "listing-resp"):
+        for total in tier_pick(tier, (253, 254, 255, 256), (250, 251, 252, 253, 254, 255, 256, 257, 300)):
+            cs.append(Case("limit-%s-%d" % (kind, total), "limit", h_limit, dict(kind=kind, total=total),
+                           bounds="%s whose TLV value has exactly %d octets (concrete name contents)" % (kind, total)))
     lens = tier_pick(tier, ((0, 0), (1, 2), (2, 0), (0, 1)), ((0, 0), (1, 2), (2, 0), (0, 1), (3, 3), (200, 1), (2, 200)))
     for w in (1, 2, 4, 8):
         for n1, n2 in lens:
